@@ -296,6 +296,36 @@ func gen(r *sim.Rng, tier string) *sim.Case {
 		}
 	}
 	c.Params["elem"] = r.Pick(6, 2, 3, 2, 1) // element type: int, string, three-word struct, pointer, interface
+	if r.Pct(2) {
+		// a contended deadline: one thread makes a single timed PopWait on a list that is not
+		// empty but busy - another thread pops value after value - and the threads take turns
+		// in lockstep, so that the waiter may lose the same race on every attempt up to and
+		// including the last one at its deadline (a third thread sometimes pushes meanwhile)
+		c.Params["twin"], c.Params["contended"] = 0, 1
+		c.Params["init"] = r.Range(12, 20)
+		waiter := sim.Op{Op: "PopWait", D: []int{1, 5, 9, 10, 11, 20}[r.N(6)]}
+		var busy []sim.Op
+		for i := 0; i < r.Range(10, 15); i++ {
+			busy = append(busy, sim.Op{Op: "Pop"})
+		}
+		c.Programs = [][]sim.Op{{waiter}, busy}
+		if r.Pct(30) {
+			var feed []sim.Op
+			for i := 0; i < r.Range(2, 5); i++ {
+				feed = append(feed, sim.Op{Op: "Push", V: 3<<8 | (i + 1)})
+			}
+			c.Programs = append(c.Programs, feed)
+		}
+		total := 0
+		for _, p := range c.Programs {
+			total += len(p)
+		}
+		c.Sched = enga.GenSched(r, len(c.Programs), total, -1, false)
+		c.Sched.Policy = "lockstep"
+		c.Sched.Quanta = []int{r.Range(1, 4), r.Range(3, 8), r.Range(1, 6)}
+		c.Sched.TickPct = []int{5, 10, 25}[r.N(3)]
+		c.Sched.Stalls, c.Sched.SpinBurn, c.Sched.FreezeAt, c.Sched.ClockJumpPct = nil, 0, -1, 0
+	}
 	c.EnvSeed = r.U64() >> 12
 	return c
 }
@@ -391,6 +421,12 @@ func check(run *enga.Run) *sim.Violation {
 		}
 	}
 
+	if c.Sched != nil && c.Sched.Policy == "lockstep" {
+		run.Out.Probes["lockstep_schedule"]++
+	}
+	if c.P("contended") == 1 && len(recs) > 0 && len(recs[0]) > 0 && recs[0][0].Done {
+		run.Out.Probes["timed_wait_next_to_a_busy_popper_in_lockstep"]++
+	}
 	end := res.End
 	if end == core.EndBudget && onlyIndefiniteWaits(c, recs, res) {
 		// Every call still running when the step budget ended is a PopWait without a deadline.
